@@ -94,6 +94,11 @@ def op_tokens(op, aux=None):
         a, d = aux if aux else ([], [])
         return (['mi'] + list_tok(op[1], lambda v: [rat_tok(v)]) + list_tok(a, lambda v: [rat_tok(v)]) +
                 list_tok(d, lambda v: [rat_tok(v)]) + list_tok(op[4] or [], lambda n: [name_tok(n)]) + [rat_tok(ATMOS_VOLUME)])
+    if k == 'add_block_fresh': return ['af', name_tok(op[1]), name_tok(op[2]), rat_tok(op[3])] + centre_tok(op[4])
+    if k == 'readd_block': return ['xb', name_tok(op[1])]
+    if k == 'readd_rocktype': return ['xr', name_tok(op[1])]
+    if k == 'readd_connection': return ['xc', name_tok(op[1]), name_tok(op[2])]
+    if k == 'again_block': return ['gb', name_tok(op[1])]
     if k == 'add': return ['ag'] + spec_tok(op[1]) + ['1' if op[2] else '0']
     if k == 'embed': return ['em'] + spec_tok(op[1]) + [name_tok(op[2]), name_tok(op[3])] + pay_tok(op[4])
     raise RuntimeError('unknown op %r' % (op,))
@@ -107,24 +112,63 @@ def T():
     return t2grids
 
 
+class Registry:
+    """every rocktype / t2block / t2connection object of a history, in creation order (the model's
+    heap ids are creation order too): lets an operation name "the most recently created object called
+    X that is not in the grid" on both sides"""
+    def __init__(self):
+        self.rocks, self.blocks, self.cons, self.seen = [], [], [], set()
+
+    def _add(self, lst, o):
+        if id(o) not in self.seen:
+            self.seen.add(id(o))
+            lst.append(o)
+
+    def rock(self, o): self._add(self.rocks, o); return o
+    def con(self, o): self._add(self.cons, o); return o
+
+    def block(self, o):
+        self._add(self.blocks, o)
+        return o
+
+    def scan(self, g):
+        """objects the library itself created (fromgeo, minc) show up in the lists in creation order"""
+        for r in g.rocktypelist: self._add(self.rocks, r)
+        for b in g.blocklist: self._add(self.blocks, b)
+        for c in g.connectionlist: self._add(self.cons, c)
+
+    def outside(self, kind, current, pred):
+        ids = set(id(o) for o in current)
+        for o in reversed(getattr(self, kind)):
+            if id(o) not in ids and pred(o):
+                return o
+        return None
+
+
+def outside_block(g, reg, nm): return reg.outside('blocks', g.blocklist, lambda b: b.name == nm)
+def outside_rock(g, reg, nm): return reg.outside('rocks', g.rocktypelist, lambda r: r.name == nm)
+def outside_con(g, reg, k): return reg.outside('cons', g.connectionlist, lambda c: tuple(b.name for b in c.block) == tuple(k))
+
+
 def make_con(blocks, p):
     t = T()
     return t.t2connection(blocks, int(p[0]), [p[1], p[2]], p[3], p[4], None, None, p[5], p[6])
 
 
-def build_spec(spec):
+def build_spec(spec, reg=None):
     """a second grid built with the public API from fresh objects"""
     t = T()
+    reg = reg or Registry()
     g = t.t2grid()
     for r in spec['rocks']:
-        g.add_rocktype(t.rocktype(name=r[0], density=float(r[1])))
+        g.add_rocktype(reg.rock(t.rocktype(name=r[0], density=float(r[1]))))
     for b in spec['blocks']:
-        g.add_block(t.t2block(b[0], b[2], g.rocktype[b[1]], centre=b[3]))
+        g.add_block(reg.block(t.t2block(b[0], b[2], g.rocktype[b[1]], centre=b[3])))
     if not spec_ok(spec):
         raise RuntimeError('harness: ill-formed grid recipe %r' % (spec,))
     for c in spec['cons']:
         # the blocks named by blocks[i], blocks[j] (as the model's specOps does)
-        g.add_connection(make_con([g.block[spec['blocks'][c[0]][0]], g.block[spec['blocks'][c[1]][0]]], c[2]))
+        g.add_connection(reg.con(make_con([g.block[spec['blocks'][c[0]][0]], g.block[spec['blocks'][c[1]][0]]], c[2])))
     return g
 
 
@@ -136,15 +180,16 @@ class Applied:
         self.grid, self.exc, self.ret, self.flag, self.aux, self.set_loop_exc = grid, None, [], True, None, False
 
 
-def apply_op(g, op):
+def apply_op(g, op, reg=None):
     """apply one operation to the real grid `g`"""
     t = T()
     k = op[0]
     res = Applied(g)
+    reg = reg or Registry()
     try:
         with contextlib.redirect_stdout(io.StringIO()):
             if k == 'add_rocktype':
-                g.add_rocktype(t.rocktype(name=op[1], density=float(op[2])))
+                g.add_rocktype(reg.rock(t.rocktype(name=op[1], density=float(op[2]))))
             elif k == 'delete_rocktype':
                 g.delete_rocktype(op[1])
             elif k == 'rename_rocktype':
@@ -154,8 +199,22 @@ def apply_op(g, op):
             elif k == 'sort_rocktypes':
                 g.sort_rocktypes()
             elif k == 'add_block':
-                rt = g.rocktype[op[2]] if op[2] in g.rocktype else t.rocktype(name=op[2], density=0.0)
-                g.add_block(t.t2block(op[1], op[3], rt, centre=op[4]))
+                rt = g.rocktype[op[2]] if op[2] in g.rocktype else reg.rock(t.rocktype(name=op[2], density=0.0))
+                g.add_block(reg.block(t.t2block(op[1], op[3], rt, centre=op[4])))
+            elif k == 'add_block_fresh':
+                rt = reg.rock(t.rocktype(name=op[2], density=0.0))
+                g.add_block(reg.block(t.t2block(op[1], op[3], rt, centre=op[4])))
+            elif k == 'readd_block':
+                b = outside_block(g, reg, op[1])
+                if b is not None: g.add_block(b)
+            elif k == 'readd_rocktype':
+                r = outside_rock(g, reg, op[1])
+                if r is not None: g.add_rocktype(r)
+            elif k == 'readd_connection':
+                c = outside_con(g, reg, (op[1], op[2]))
+                if c is not None: g.add_connection(c)
+            elif k == 'again_block':
+                if op[1] in g.block: g.add_block(g.block[op[1]])
             elif k == 'delete_block':
                 res.set_loop_exc = True
                 g.delete_block(op[1])
@@ -163,8 +222,8 @@ def apply_op(g, op):
             elif k == 'demote_block':
                 g.demote_block(list(op[1]))
             elif k == 'add_connection':
-                bs = [g.block[n] if n in g.block else default_block(n) for n in op[1:3]]
-                g.add_connection(make_con(bs, op[3]))
+                bs = [g.block[n] if n in g.block else default_block(n, reg) for n in op[1:3]]
+                g.add_connection(reg.con(make_con(bs, op[3])))
             elif k == 'delete_connection':
                 g.delete_connection((op[1], op[2]))
             elif k == 'reorder':
@@ -181,13 +240,13 @@ def apply_op(g, op):
                 finally:
                     res.aux = recover_minc_numbers(g, vols, ncon, len(op[1]))
             elif k == 'add':
-                other = build_spec(op[1])
+                other = build_spec(op[1], reg)
                 res.grid = (g + other) if op[2] else (other + g)
             elif k == 'embed':
-                sub = build_spec(op[1])
-                host = g.block[op[2]] if op[2] in g.block else default_block(op[2])
-                sb = sub.block[op[3]] if op[3] in sub.block else default_block(op[3])
-                r = g.embed(sub, make_con([host, sb], op[4]))
+                sub = build_spec(op[1], reg)
+                host = g.block[op[2]] if op[2] in g.block else default_block(op[2], reg)
+                sb = sub.block[op[3]] if op[3] in sub.block else default_block(op[3], reg)
+                r = g.embed(sub, reg.con(make_con([host, sb], op[4])))
                 if r is None:
                     res.flag = False
                 else:
@@ -204,13 +263,17 @@ def apply_op(g, op):
         res.exc = 'Exception'
     if res.exc is None:
         res.set_loop_exc = False
+    reg.scan(res.grid)
     return res
 
 
-def default_block(n):
+def default_block(n, reg=None):
     t = T()
     b = t.t2block(n)
     b.rocktype.density = 0.0
+    if reg is not None:
+        reg.rock(b.rocktype)
+        reg.block(b)
     return b
 
 
@@ -385,10 +448,31 @@ def is_perm_ids(objs, lst):
     return sorted(id(o) for o in objs) == sorted(id(o) for o in lst)
 
 
-def classify(g, op):
+def classify(g, op, reg=None):
     """'ok' (within Pre), 'F1'/'F2'/'F3' (known finding situations), or 'misuse'"""
     k = op[0]
     pre, finding = True, None
+    reg = reg or Registry()
+    if k == 'add_block_fresh':
+        return 'misuse'
+    if k == 'readd_block':
+        b = outside_block(g, reg, op[1])
+        if b is None: return 'ok'
+        base = len(b.connection_name) == 0 and any(b.rocktype is r for r in g.rocktypelist)
+        con = block_name_connected(g, op[1])
+        if base and not con: return 'ok'
+        return 'F1' if base else 'misuse'
+    if k == 'readd_rocktype':
+        r = outside_rock(g, reg, op[1])
+        if r is None or not rock_name_in_use(g, op[1]): return 'ok'
+        return 'F2'
+    if k == 'readd_connection':
+        c = outside_con(g, reg, (op[1], op[2]))
+        if c is None: return 'ok'
+        ids = set(id(b) for b in g.blocklist)
+        return 'ok' if (len(c.block) == 2 and id(c.block[0]) in ids and id(c.block[1]) in ids and c.block[0] is not c.block[1]) else 'misuse'
+    if k == 'again_block':
+        return 'ok'
     if k == 'add_rocktype':
         if rock_name_in_use(g, op[1]): pre, finding = False, 'F2'
     elif k == 'delete_rocktype':
